@@ -147,6 +147,13 @@ def run(ctx):
                                      "error %s, expected %d" % (cu, cg, ag, d and d["error_num"], want), "client": (cu, cg), "auth_gid": ag})
         os.unlink(flag)
         cf.stop()
+    import conc
+    pp, prep, pn = conc.peercred_fault_phase(ctx, label="c04pc")
+    dist["peercred-fault"] = pn
+    for pb in pp:
+        fails.append(dict(pb, case="peercred-fault"))
+    if prep.strip():
+        ctx.violation("sanitizer report from the daemon during the identity-fault phase", {"report": prep[:3000]}, found_input=False)
     rc, rep = cr.stop()
     if rep.strip():
         ctx.violation("sanitizer report from the daemon during C04 cases", {"report": rep[:3000]}, found_input=False)
